@@ -83,7 +83,10 @@ def emit(spec, i, n):
         else:
             out.append('<%%inherit file="t%d.html"/>' % (i + 1))
     if spec["page"]:
-        out.append('<%%page args="%s"/>' % ", ".join(spec["page"]))
+        sig = ", ".join(spec["page"])
+        if spec.get("page_kwonly") and len(spec["page"]) == 2:
+            sig = "%s, *, %s" % tuple(spec["page"])   # the second argument is keyword-only: body() passes it by keyword anyway
+        out.append('<%%page args="%s"/>' % sig)
     if spec["attrs"]:
         out.append("<%%!\n%s\n%%>" % "\n".join("%s = %r" % (a, attr_value(spec, a, i)) for a in spec["attrs"]))
     emit_items(spec["body"], spec, out)
@@ -339,7 +342,8 @@ def rand_chain(r):
             if r.random() < 0.5:
                 spec["blocks"][b] = None
         if i < n and r.random() < 0.4:
-            spec["page"] = ["pa"] if r.random() < 0.7 else ["pa", "pb"]
+            spec["page"] = ["pa"] if r.random() < 0.6 else ["pa", "pb"]
+            spec["page_kwonly"] = r.random() < 0.5
         chain.append(spec)
     for i, spec in enumerate(chain):
         spec["target_none"] = bool(spec["dynamic"] and r.random() < 0.3)
